@@ -169,28 +169,10 @@ func genLagLog(rng *hx.Rng, timeout time.Duration) *lagLog {
 	return l
 }
 
-// ---------------------------------------------------------------- the scenario
-
-// variant = 1000 * (seed of the log) + selector 0..11 of the commit offset known to the follower (-1 .. n-2) and of rf (1, 2)
-func runLagging(s scen, o *hx.Out, mu *sync.Mutex) {
-	var sigs []string
-	viol := func(sig, det string) {
-		mu.Lock()
-		defer mu.Unlock()
-		o.Violation(sig, "scenario "+s.String()+": "+det)
-		sigs = append(sigs, sig)
-	}
-	sel := s.variant % 1000 // 0..11: which commit offset the follower knew, and the replication factor
-	rng := hx.NewRng(uint64(s.variant/1000) + 0x1a9)
-	T := s.timeout
-	l := genLagLog(rng, T)
-	nEntries := int64(len(l.reqs))
-	c := int64(sel)*(nEntries-1)/11 - 1 // -1 (empty DB) .. n-2 (one entry behind): the commit offset sent with entry i is at most i-1
-	rf := uint32(1 + sel%2)
-
-	n := newNodeDirs()
-	defer n.close()
-
+// feedAndElect: a real follower controller over the node's WAL and DB receives reqs as entries 0..n-1 of term 1 through
+// Replicate, with advertised commit offsets min(i-1, c); it is closed and the node is elected leader of term 2 (NewTerm +
+// BecomeLeader; rf 2: an in-process follower that was at (1, c) and acks everything). Returns the time BecomeLeader started.
+func feedAndElect(n *node, reqs []*proto.WriteRequest, c int64, rf uint32) time.Time {
 	// --- term 1: follower
 	fc, err := server.NewFollowerController(server.Config{NotificationsRetentionTime: time.Hour}, "default", shard, n.wf, n.kvf)
 	hx.Must(err)
@@ -201,7 +183,7 @@ func runLagging(s scen, o *hx.Out, mu *sync.Mutex) {
 	stream := newSrvStream(1)
 	done := make(chan error, 1)
 	go func() { done <- fc.Replicate(stream) }()
-	for i, w := range l.reqs {
+	for i, w := range reqs {
 		value, err := (&proto.LogEntryValue{Value: &proto.LogEntryValue_Requests{Requests: &proto.WriteRequests{Writes: []*proto.WriteRequest{w}}}}).MarshalVT()
 		hx.Must(err)
 		co := int64(i) - 1
@@ -252,6 +234,34 @@ func runLagging(s scen, o *hx.Out, mu *sync.Mutex) {
 		panic("BecomeLeader did not return")
 	}
 	n.lc = lc
+	return b0
+
+}
+
+// ---------------------------------------------------------------- the scenario
+
+// variant = 1000 * (seed of the log) + selector 0..11 of the commit offset known to the follower (-1 .. n-2) and of rf (1, 2)
+func runLagging(s scen, o *hx.Out, mu *sync.Mutex) {
+	var sigs []string
+	viol := func(sig, det string) {
+		mu.Lock()
+		defer mu.Unlock()
+		o.Violation(sig, "scenario "+s.String()+": "+det)
+		sigs = append(sigs, sig)
+	}
+	sel := s.variant % 1000 // 0..11: which commit offset the follower knew, and the replication factor
+	rng := hx.NewRng(uint64(s.variant/1000) + 0x1a9)
+	T := s.timeout
+	l := genLagLog(rng, T)
+	nEntries := int64(len(l.reqs))
+	c := int64(sel)*(nEntries-1)/11 - 1 // -1 (empty DB) .. n-2 (one entry behind): the commit offset sent with entry i is at most i-1
+	rf := uint32(1 + sel%2)
+
+	n := newNodeDirs()
+	defer n.close()
+
+	b0 := feedAndElect(n, l.reqs, c, rf)
+	lc := n.lc
 
 	// --- against the fold of the whole log
 	v := n.view()
@@ -285,6 +295,9 @@ func runLagging(s scen, o *hx.Out, mu *sync.Mutex) {
 		}
 		if !inIds(known, id) {
 			viol("session:lost-after-leader-change", fmt.Sprintf("%s: session %d (created at offset %d) is in the new leader's DB but its session manager does not know it: it can neither be kept alive nor expire", ctx, id, id))
+		}
+		if m, ok := server.VerifSessionInfo(lc)[id]; ok && (m.Timeout != T || m.Identity != "c") {
+			viol("session:restored-with-foreign-metadata", fmt.Sprintf("%s: session %d was created with timeout %v identity %q, the new leader runs it with timeout %v identity %q", ctx, id, T, "c", m.Timeout, m.Identity))
 		}
 		hb := time.Now()
 		if err := lc.KeepAlive(id); err != nil {
